@@ -115,6 +115,67 @@ def _worker(task):
         return dict(ok=False, hname=hname, jobi=jobi, error='%s: %s\n%s' % (type(e).__name__, e, traceback.format_exc()[-2000:]))
 
 
+
+class Pool:
+    """process pool that survives worker crashes and enforces a hard per-task time limit (a lost task is reported, never dropped silently)"""
+    def __init__(self, n):
+        self.n = n; self.workers = []; self.queue = []; self.done = []
+        self.ctx = multiprocessing.get_context('fork')
+        for _ in range(n): self.workers.append(self.spawn())
+
+    def spawn(self):
+        a, b = self.ctx.Pipe()
+        p = self.ctx.Process(target=_worker_loop, args=(b,), daemon=True); p.start(); b.close()
+        return dict(proc=p, conn=a, task=None, tag=None, t0=0, limit=0)
+
+    def submit(self, tag, task, limit):
+        self.queue.append((tag, task, limit))
+
+    def outstanding(self):
+        return len(self.queue) + sum(1 for w in self.workers if w['task'] is not None)
+
+    def poll(self):
+        """returns list of (tag, result) finished since the last call"""
+        out = []
+        for i, w in enumerate(self.workers):
+            if w['task'] is not None:
+                res = None; dead = False
+                try:
+                    if w['conn'].poll(0): res = w['conn'].recv()
+                    elif not w['proc'].is_alive(): dead = True
+                except (EOFError, OSError): dead = True
+                if res is not None:
+                    out.append((w['tag'], res)); w['task'] = None
+                elif dead or time.time() - w['t0'] > w['limit']:
+                    why = 'worker process died (exit %s)' % w['proc'].exitcode if dead else 'hard time limit of %d s exceeded (solver query did not return)' % w['limit']
+                    try: w['proc'].kill()
+                    except Exception: pass
+                    out.append((w['tag'], dict(ok=False, hname=w['task'][1], jobi=w['task'][2], error=why, lost_work=w['task'][4])))
+                    self.workers[i] = w = self.spawn()
+            if w['task'] is None and self.queue:
+                tag, task, limit = self.queue.pop(0)
+                w['task'] = task; w['tag'] = tag; w['t0'] = time.time(); w['limit'] = limit
+                w['conn'].send(task)
+        return out
+
+    def close(self):
+        for w in self.workers:
+            try: w['conn'].send(None)
+            except Exception: pass
+        for w in self.workers:
+            w['proc'].join(1)
+            if w['proc'].is_alive(): w['proc'].kill()
+
+
+def _worker_loop(conn):
+    signal.signal(signal.SIGINT, signal.SIG_IGN)
+    while True:
+        try: task = conn.recv()
+        except EOFError: return
+        if task is None: return
+        conn.send(_worker(task))
+
+
 def load_harnesses(pid, tier):
     sys.path.insert(0, os.path.join(ROOT, 'harness'))
     m = importlib.import_module(pid)
@@ -225,22 +286,23 @@ def run_property(pid, tier, seed, only=None, keep=False, nodiff=False):
         per = {h.name: dict(paths=0, queries=0, solver_s=0.0, funcs=set(), findings=[], unsupported=[], n_unsupported=0, obligations=0, obl_paths=0,
                             reached={}, samples=[], errors=[], incomplete=0, steps=0) for h in hs}
         deadline = {h.name: time.time() + h.wall for h in hs}
-        pool = multiprocessing.Pool(NCPU, maxtasksperchild=50)
-        pending = []; newp = []
+        pool = Pool(NCPU)
         def submit(h, jobi, workl, mp, wall):
             task = (pid, h.name, jobi, build.ir(h.wrapper, h.defs), workl, mp, wall, known_keys)
-            newp.append((h, jobi, pool.apply_async(_worker, (task,))))
+            pool.submit((h, jobi), task, wall * 3 + 60)
         for h in hs:
             for jobi in range(len(h.jobs)):
                 submit(h, jobi, None, 30, 5)
-        pending, newp[:] = list(newp), []
-        while pending:
-            time.sleep(0.05)
-            still = []
-            for (h, jobi, ar) in pending:
-                if not ar.ready(): still.append((h, jobi, ar)); continue
-                r = ar.get(); p = per[h.name]
-                if not r['ok']: p['errors'].append(r['error']); continue
+        while pool.outstanding():
+            done = pool.poll()
+            if not done: time.sleep(0.02); continue
+            for ((h, jobi), r) in done:
+                p = per[h.name]
+                if os.environ.get('VERIF_VERBOSE'): sys.stderr.write('[%.1f] %s job %d: ok=%s paths=%s left=%s wall=%.1f outstanding=%d\n' % (time.time() - t0, h.name, jobi, r['ok'], r.get('paths'), len(r.get('left') or []), r.get('wall_s', 0), pool.outstanding()))
+                if not r['ok']:
+                    p['errors'].append(r['error'])
+                    if os.environ.get('VERIF_VERBOSE'): sys.stderr.write('   error: %s\n' % r['error'])
+                    continue
                 for k in ('paths', 'queries', 'solver_s', 'obligations', 'obl_paths', 'n_unsupported', 'steps'): p[k] += r[k]
                 p['funcs'].update(r['funcs']); p['unsupported'] += r['unsupported']
                 for f in r['findings']: f['job'] = jobi; p['findings'].append(f)
@@ -251,15 +313,14 @@ def run_property(pid, tier, seed, only=None, keep=False, nodiff=False):
                     if time.time() > deadline[h.name]:
                         p['incomplete'] += len(left); continue
                     # split leftover sub-trees over the pool: one prefix per task while workers are idle, chunks otherwise
-                    outstanding = len(still) + len(newp) + 1
+                    outstanding = pool.outstanding()
                     room = max(1, 3 * NCPU - outstanding)
                     nchunks = min(len(left), room)
                     chunks = [left[i::nchunks] for i in range(nchunks)]
                     remaining = max(5, deadline[h.name] - time.time())
                     busy = outstanding + nchunks >= NCPU
                     for c in chunks: submit(h, jobi, c, 2000 if busy else 60, min(45 if busy else 6, remaining))
-            pending = still + list(newp); newp[:] = []
-        pool.close(); pool.join()
+        pool.close()
         # 3. differential validation of the interpreter (and of the harness) against the native build
         diff_ok = 0; machinery = []
         if not nodiff:
